@@ -1,3 +1,4 @@
+// FAMILY(equil, "C11 gsequ/laqgs over the whole floating-point range")
 #include "putil.h"
 #define FAMILY_INC "fam_equil.inc"
 #include "all_prec.h"
